@@ -73,10 +73,10 @@ class ProjectionRegister:
 
     def unregister_projector(self, projector):
         self.__projectors.discard(projector)
-        # Carrier may have been unloaded or replaced since registration, in this
-        # case projector is tracked as carrierless
-        carrier_item = projector.item._solsys_carrier
-        if carrier_item is not None:
+        # Carrier may have been unloaded or replaced since registration (an
+        # unloaded ship is replaced silently), so we cannot rely on current
+        # carrier to find the bucket projector is tracked in
+        for carrier_item in tuple(self.__carrier_projectors):
             self.__carrier_projectors.rm_data_entry(carrier_item, projector)
         self.__carrierless_projectors.discard(projector)
 
